@@ -9,7 +9,7 @@ from ..itermut import IterMut
 from ..model import AnalysisError, unparse
 from ..report import RuleResult
 from ..roles import param
-from ._c05_sem import Fx, KindFacts, containers_of_kind, covered_helpers, effectful, name_of
+from ._c05_sem import Fx, KindFacts, containers_of_kind, covered_helpers, effectful, name_of, sem_view
 
 
 def rule_itermut(ctx) -> RuleResult:
@@ -49,7 +49,7 @@ def rule_guard(ctx) -> RuleResult:
     )
     # decided on the paths, not on the spelling of the test: with the entity's allow_delete assumed OFF no path may reach a
     # call that an accepted request (allow_delete ON) also reaches, nor the normal exit (helpers expanded, aliases undone)
-    fn = ctx.view("Workspace.remove_entity")
+    fn = sem_view(ctx, "Workspace.remove_entity")
     ent = param(fn, 0)
     if ent is None:
         raise AnalysisError("C05.GUARD: Workspace.remove_entity has no entity parameter")
@@ -94,11 +94,36 @@ def _concat_remove_sites(ctx):
     def raw_hit(node):
         return any(isinstance(n, ast.Call) and name_of(n.func) == "remove_entity" for n in ast.walk(node))
 
+    # only functions that can contain the call once helpers are expanded: they make it themselves, or call (by name, up to
+    # the expansion depth) a function that does
+    fns = [fn for fn in p.all_functions() if not (fn.cls is conc and fn.name == "remove_entity")]
+
+    def mentioned(node):
+        """names of the functions called, passed to a call (map(f, xs)) or listed in a literal table of callables"""
+        out = set()
+        for n in ast.walk(node):
+            if isinstance(n, ast.Call):
+                out.add(name_of(n.func))
+                out |= {a.attr for a in n.args if isinstance(a, ast.Attribute)}
+            elif isinstance(n, (ast.Tuple, ast.List)):
+                out |= {e.attr for e in n.elts if isinstance(e, ast.Attribute)}
+            elif isinstance(n, ast.Dict):
+                out |= {e.attr for e in n.values if isinstance(e, ast.Attribute)}
+        return out
+
+    called = {fn: mentioned(fn.node) for fn in fns}
+    hot = {fn for fn in fns if "remove_entity" in called[fn]}
+    for _ in range(4):
+        names = {fn.name for fn in hot}
+        more = {fn for fn in fns if fn not in hot and called[fn] & names}
+        if not more:
+            break
+        hot |= more
     cands = []
-    for fn in p.all_functions():
-        if fn.cls is conc and fn.name == "remove_entity":
+    for fn in fns:
+        if fn not in hot:
             continue
-        v = ctx.view(fn) if any(isinstance(n, ast.Call) and (name_of(n.func) or "").startswith("_") for n in ast.walk(fn.node)) else fn
+        v = sem_view(ctx, fn)
         if raw_hit(v.node):
             cands.append((fn, v))
     out = []
@@ -190,7 +215,7 @@ def rule_scrub(ctx) -> RuleResult:
     if not impls:
         raise AnalysisError("C05.SCRUB: no remove_children implementation found on the ObjectBase family")
     for fn0, classes in impls.items():
-        fn = ctx.view(fn0)  # private helpers (the per-child body, ...) expanded in place
+        fn = sem_view(ctx, fn0)  # private helpers (the per-child body, ...) expanded in place
         F = Fx(fn)
         g = F.g
         sn = fn.self_name
@@ -287,7 +312,7 @@ def rule_file(ctx) -> RuleResult:
         floor=6,
     )
     p = ctx.p
-    fn = ctx.view("Workspace.remove_entity")
+    fn = sem_view(ctx, "Workspace.remove_entity")
     ent = param(fn, 0)
     if ent is None:
         raise AnalysisError("C05.FILE: Workspace.remove_entity has no entity parameter")
@@ -332,7 +357,7 @@ def rule_file(ctx) -> RuleResult:
                     res.find("Workspace", "remove_entity", f"container argument {shown}", f"{fn.module.relpath}:{c.lineno}",
                              "the flat container is not derived from the entity's kind")
     # remove_recursively
-    rr = ctx.view("Workspace.remove_recursively")
+    rr = sem_view(ctx, "Workspace.remove_recursively")
     e2 = param(rr, 0)
     if e2 is None:
         raise AnalysisError("C05.FILE: Workspace.remove_recursively has no entity parameter")
@@ -389,7 +414,7 @@ def rule_file(ctx) -> RuleResult:
         m = ws.lookup(name)
         if not m or m[1] != "method":
             return False
-        V = Fx(ctx.view(m[2]))  # the deletion may sit in a private helper of that method
+        V = Fx(sem_view(ctx, m[2]))  # the deletion may sit in a private helper of that method
         # direct, unconditional-by-structure calls only
         return any(_is_file_removal(V, c) for c in ast.walk(V.node) if isinstance(c, ast.Call))
 
@@ -404,12 +429,12 @@ def rule_file(ctx) -> RuleResult:
     # tables: for an entity of each kind, the container name each function can choose on the paths feasible for that kind
     expect = {"Data": "Data", "Group": "Groups", "ObjectBase": "Objects"}
     for spec, idx in (("Workspace.str_from_type", 0), ("H5Writer.write_entity", 1), ("H5Writer.write_to_parent", 1), ("H5Writer.fetch_handle", 1)):
-        tf = ctx.view(spec)
+        tf = sem_view(ctx, spec)
         var = param(tf, "entity") or param(tf, idx)
         if var is None:
             raise AnalysisError(f"C05.FILE: {spec} has no entity parameter")
         for k, v in expect.items():
-            names = containers_of_kind(p, tf, var, p.cls(k))
+            names = containers_of_kind(p, tf, var, p.cls(k), ctx=ctx)
             got = None if not names else (next(iter(names)) if len(names) == 1 else sorted(names))
             ok = got == v
             res.inst(f"{tf.name}: kind {k} -> container {got!r}", ok=ok)
